@@ -50,6 +50,7 @@ var Prop = &engine.Prop{
 		{Name: "faults", Quick: 8000, Thorough: 600000, Fn: faultCase},
 		{Name: "server", Quick: 16, Thorough: 640, Fn: serverCase},
 		{Name: "tcp-flush", Quick: 24, Thorough: 960, Fn: tcpFlushCase},
+		{Name: "server-zero", Quick: 8, Thorough: 160, Fn: serverZeroCase},
 	},
 	Floors: map[string]int64{
 		"sessions":                       2000,
